@@ -9,11 +9,12 @@
     first byte and does not leave that byte's unit (page / line).
     Memories and host buffers are total functions index -> byte; [h2d]/[d2h]
     apply the pieces in order exactly as the Go loops do. *)
-From Coq Require Import List NArith Bool Arith Lia ZifyN ZifyNat ZifyBool.
+From Coq Require Import List NArith Bool Arith Lia ZifyN ZifyNat ZifyBool Permutation.
 From VLib Require Import Chunks ChunksProofs.
 From VMem Require Import StorageAccessor StorageAccessorProofs.
 From VDrv Require Import MemCopy MemCopyProofs FlushHist FlushHistProofs CopyCmd CopyCmdProofs.
-From VCp Require Import Dma DmaProofs DmaDataProofs CpRelay.
+From VCp Require Import Dma DmaProofs DmaDataProofs.
+From VCp Require CpRelay CpRelayProofs.
 Import ListNotations.
 Open Scope N_scope.
 
@@ -351,23 +352,87 @@ Proof.
 Qed.
 Print Assumptions dma_accept_splits_by_line.
 
-(** * The command processor's relay, under the stated assumption *)
+(** * The command processor between driver, DMA engine and caches
 
-Theorem cp_relay_exact_if_outgoing_not_full : forall s,
-  outgoing_not_full s ->
-  (forall r rest, flushing s = false -> drv_in s = r :: rest ->
-     let s' := relay_req s in
-     drv_in s' = rest /\ dma_out s' = dma_out s ++ [(fresh s, r)] /\
-     lookup (fresh s) (table s') = Some r /\ lost s' = lost s) /\
-  (forall c rest r, dma_in s = c :: rest -> lookup c (table s) = Some r ->
-     let s' := relay_rsp s in
-     dma_in s' = rest /\ drv_out s' = drv_out s ++ [r] /\ lost s' = lost s /\ panicked s' = panicked s).
+    Event-exact model of the CP's flush / copy bookkeeping (numCacheACK, the head
+    of ToDriver held back, clone IDs and the two maps), for every cache count,
+    every ToDriver capacity and every finite sequence of deliveries on the three
+    ports, ticks and retrievals.  [g_issued] / [g_acked] count the cache flush
+    requests sent and the cache answers processed; [g_wrapped] records a cache
+    answer that nobody asked for (numCacheACK decremented at 0). *)
+Module CP.
+Import CpRelay CpRelayProofs.
+
+(** No copy request (H2D or D2H) is cloned and handed to the DMA port while a
+    cache flush issued before is unacknowledged, and a flush is answered to the
+    driver only when every cache has acknowledged. *)
+Theorem cp_copy_waits_for_flush : forall n cap evs,
+  let s := run (init n cap) evs in
+  g_wrapped s = false ->
+  Forall (fun e => f_issued e = f_acked e) (g_fwd s) /\
+  Forall (fun e => p_kind (r_rsp e) = DFlush -> r_issued e = r_acked e) (g_rsp s) /\
+  acks s + g_acked s = g_issued s.
 Proof.
-  intros s Ho. split.
-  - intros r rest Hf Hin. apply relay_req_exact; assumption.
-  - intros c rest r Hin Hl. eapply relay_rsp_exact; eassumption.
+  intros n cap evs s Hw. pose proof (run_rinv evs _ (init_rinv n cap)) as H. fold s in H.
+  destruct H as [_ _ Hacks Hfwd Hrspf _ _ _]. repeat split; auto.
+  - eapply Forall_impl; [|exact Hfwd]. cbn. auto.
+  - eapply Forall_impl; [|exact Hrspf]. cbn. auto.
 Qed.
-Print Assumptions cp_relay_exact_if_outgoing_not_full.
+
+(** Every request taken from the driver port is accounted for exactly once:
+    the copies are cloned once each, in order ([g_fwd]); the answered ones
+    (responses built, sent or dropped) together with those still waiting in the
+    two maps are a permutation of the copies taken; responses carry the ID,
+    kind and source of the original; with distinct request IDs no copy is
+    answered twice.  The responses the driver side sees are exactly the
+    responses built whose Send succeeded, in order — a response built while
+    ToDriver's outgoing buffer is full is dropped by the code ([r_sent] =
+    false); with [Forall r_sent] (the outgoing_not_full premise) none is. *)
+Theorem cp_relay_exactly_once : forall n cap evs,
+  let s := run (init n cap) evs in
+  g_cons s ++ drv_in s = g_deliv s /\
+  map (fun e => cl_orig (f_clone e)) (g_fwd s) = map q_id (filter is_copy (g_cons s)) /\
+  Permutation (map (fun e => p_orig (r_rsp e)) (filter is_copy_rsp (g_rsp s)) ++
+               map (fun e => q_id (snd e)) (tab_h2d s ++ tab_d2h s))
+              (map q_id (filter is_copy (g_cons s))) /\
+  g_retr s ++ drv_out s = map r_rsp (filter r_sent (g_rsp s)) /\
+  (NoDup (map q_id (g_deliv s)) ->
+   NoDup (map (fun e => p_orig (r_rsp e)) (filter is_copy_rsp (g_rsp s)))) /\
+  (forallb r_sent (g_rsp s) = true -> g_retr s ++ drv_out s = map r_rsp (g_rsp s)).
+Proof.
+  intros n cap evs s. pose proof (run_rinv evs _ (init_rinv n cap)) as H. fold s in H.
+  pose proof (once_nodup s H) as Hn. destruct H as [Hs Hc _ _ _ _ Ho Hf].
+  repeat split; auto. intros Hall. rewrite Hs. f_equal.
+  clear - Hall. induction (g_rsp s) as [|x r IH]; cbn in *; [reflexivity|].
+  apply andb_true_iff in Hall as [Hx Hr]. rewrite Hx. f_equal. auto.
+Qed.
+
+(** Non-vacuity: two caches; flush 1, H2D 2 and D2H 3 queued behind it.  The
+    copies stay in the port until both caches have answered; then flush
+    response, clones, DMA answers in reverse order, copy responses. *)
+Definition demo : list ev :=
+  [EDrv (mkDReq 1 DFlush 10); EDrv (mkDReq 2 DH2D 10); EDrv (mkDReq 3 DD2H 11);
+   ETick; ETick; ERetrCache; ERetrCache; ERetrDma; ECache CAck; ETick; ERetrDma; ECache CAck; ETick; ETick; ETick;
+   ERetrDrv; ERetrDma; ERetrDma; EDma (MRsp 1000001); EDma (MRsp 1000000); ETick; ETick; ERetrDrv; ERetrDrv].
+Example demo_cp :
+  let s := run (init 2 4096) demo in
+  g_retr s = [mkDRsp 1 DFlush 10; mkDRsp 3 DD2H 11; mkDRsp 2 DH2D 10] /\
+  map f_clone (g_fwd s) = [mkClone 1000000 2 DH2D; mkClone 1000001 3 DD2H] /\
+  map (fun e => (f_issued e, f_acked e)) (g_fwd s) = [(2, 2); (2, 2)] /\
+  g_wrapped s = false /\ panicked s = false /\
+  run_obs (init 2 4096) (firstn 11 demo) =
+    [OAcc true; OAcc true; OAcc true; OTick true; OTick false; OCache (Some 0); OCache (Some 1);
+     OClone None; OAcc true; OTick true; OClone None].
+Proof. vm_compute. repeat split; reflexivity. Qed.
+
+(** A response built while ToDriver's one-entry outgoing buffer is occupied is lost. *)
+Example demo_cp_loss :
+  let s := run (init 0 1) [EDrv (mkDReq 1 DFlush 10); ETick; EDrv (mkDReq 2 DFlush 10); ETick; ERetrDrv; ERetrDrv] in
+  g_retr s = [mkDRsp 1 DFlush 1] /\ map r_sent (g_rsp s) = [true; false].
+Proof. vm_compute. split; reflexivity. Qed.
+End CP.
+Print Assumptions CP.cp_copy_waits_for_flush.
+Print Assumptions CP.cp_relay_exactly_once.
 
 (** * Non-vacuity *)
 
@@ -422,35 +487,4 @@ Example demo_dma_completes :
   map (fun q => (s_addr q, s_size q)) (g_sent s) = [(60, 4); (64, 64); (128, 32); (128, 8)].
 Proof. vm_compute. repeat split; reflexivity. Qed.
 
-(** The premise of the relay theorem is satisfiable, and without it a command is lost. *)
-(** The premise of [dma_d2h_data_exact] is satisfiable: an 8-byte D2H crossing a
-    line boundary, the two replies delivered in reverse order. *)
-Definition demo_img : bytes := fun a => (a * 3) mod 256.
-Definition demo_d2h : list ev :=
-  [EDeliverCP (mkCopy 1 CD2H 10 60 (repeat 0 8)); ETick; ETick; ETick; ERetrMem; ERetrMem;
-   EDeliverMem (mkRsp RData 1000001 (to_list demo_img 64 4));
-   EDeliverMem (mkRsp RData 1000000 (to_list demo_img 60 4)); ETick; ETick; ETick; ERetrCP].
-Example demo_d2h_respects : respects demo_img (init 6 4) demo_d2h.
-Proof.
-  unfold demo_d2h. cbn [respects].
-  repeat (split; [exact I|]).
-  split; [split; [reflexivity|]|split; [split; [reflexivity|]|repeat (split; [exact I|]); exact I]].
-  - vm_compute. intros q [<-|[<-|[]]] H; try discriminate H. left. repeat split; reflexivity.
-  - vm_compute. intros q [<-|[<-|[]]] H; try discriminate H. left. repeat split; reflexivity.
-Qed.
-Example demo_d2h_result :
-  map c_data (g_retr (run (init 6 4) demo_d2h)) = [to_list demo_img 60 8].
-Proof. reflexivity. Qed.
 
-(** A command of zero bytes is answered when it is accepted and occupies no slot. *)
-Example demo_dma_zero_length :
-  let s := run (init 6 4) [EDeliverCP (mkCopy 1 CD2H 10 100 []); ETick; ETick; ERetrCP] in
-  map c_id (g_retr s) = [1] /\ processing s = [] /\ g_sent s = [] /\ crashed s = false.
-Proof. vm_compute. repeat split; reflexivity. Qed.
-
-Example demo_relay :
-  let s := mkCp [7] [] [] [] [] 100 1%nat false false [] in
-  outgoing_not_full s /\ dma_out (relay_req s) = [(100, 7)] /\
-  let full := mkCp [8] [(100, 7)] [] [] [(100, 7)] 101 1%nat false false [] in
-  dma_out (relay_req full) = [(100, 7)] /\ drv_in (relay_req full) = [] /\ lost (relay_req full) = [8].
-Proof. vm_compute. repeat split; reflexivity. Qed.
